@@ -71,6 +71,7 @@ def _fresh_bool(name):
 def k_create_connection(ip, args, kwargs):
     G = core.cur().ghost
     if core.branch(sym.fresh_bool("connect_refused").t):
+        G["connection_refused"] = True
         raise socket.error("connection refused")
     G["conn"] = G.get("conn", 0) + 1
     G["conn_auth"] = False
